@@ -55,6 +55,38 @@ add(
     "(collinear/planar) geometries avoided by construction.",
 )
 
+HIST = ("Histories are generated as plain data (lattice plug-in engine configuration: 2-7 interfaces, sh/wf moves, cap, 1..n-1 workers, "
+        "single- and multi-engine layouts, delete_old, seeds, zero-swap probability; 1-3 process lifetimes with generated completion orders, "
+        "clean stops and kills) and executed by the real scheduler()/REPEX_state/run_md/PathStorage in forked children behind a "
+        "deterministic runner that owns the completion order; a reference model kept by the harness is compared after every event. Sampled. ")
+add(
+    "C03",
+    "model-based property testing over generated histories/schedules (Hypothesis), deterministic runner owning the completion order",
+    HIST + "Model: the set of in-flight jobs. Checked after every pick and every treat_output: ensembles/paths/engine instances/worker "
+    "directories of in-flight jobs pairwise disjoint; busy marks == in-flight ensembles; picked path sits in its slot with non-zero weight; "
+    "engine_occ agrees; zero swaps only when both were idle; cached probability matrix equals a fresh evaluation.",
+    "Lazy execution at completion time stands for concurrent execution (workers share nothing - which is what the check verifies). "
+    "md_items cross a pickle boundary as in production. The exhaustive small-system DFS of the design is not built; evidence says sampled.",
+)
+add(
+    "C04",
+    "model-based property testing over generated histories/schedules (Hypothesis) with a conservation-law model",
+    HIST + "Model: per-column idle counters and the set of archived paths. After every completed step the summed fractions must grow by exactly "
+    "1 in idle columns and 0 in busy ones (longdouble, 1e-12), only idle live paths change and only where their weight is non-zero, "
+    "data-file rows appended = replaced paths of an accepted move, no path written twice or while live (also across restarts); at the end "
+    "rows + [current.frac] = idle counts per column (one worker: = cstep).",
+    "Same driver assumptions as C03. Crash-window duplicates (row written, restart file not yet) belong to C08 and are not generated here (kills happen between steps).",
+)
+add(
+    "C05",
+    "model-based property testing over generated histories/schedules (Hypothesis) with an independent perfect-matching oracle",
+    HIST + "Before every pick the idle block must have a perfect matching (independent permanent oracle) and the probability matrix must be "
+    "finite, non-negative and sum to the number of idle ensembles; after every step idle slots have non-zero diagonal, live paths are "
+    "distinct, path numbers increase and are never reused across restarts; each restart file loads; an exception or a child that does not "
+    "terminate (sort loop) is a violation.",
+    "Precondition taken from the sampler's design: the engine cannot jump over [lambda_i, cap) (staircase weights) - generated caps respect it. Time-out 240 s per lifetime (normal: < 1 s).",
+)
+
 NOT_YET = "check not built yet in this session (design exists in DESIGN.md §4); will be claimed once its check is registered"
 
 
